@@ -235,6 +235,13 @@ def matrix_program(m, idx, variant="unit"):
         for x in need:
             add_show_fn(p, x, done)
         p.fn("f", [("v", gty(t))], UNIT, Block([Let(gp, Var("v")), Do(Call("string_println", concat(parts)))], Unit))
+    elif variant == "loop":
+        # the match is the last thing in a loop body: its value is not used, only its effects (statement position)
+        p.fn("f", [("v", gty(t))], UNIT, Block([
+            Let("once", Call("ref", Int(0))),
+            Stmt(While(Bin("<", Call("ref_get", Var("once")), Int(1)),
+                       Block([Do(Call("ref_set", Var("once"), Int(1)))], Match(Var("v"), arms)))),
+        ], Unit))
     else:
         p.fn("f", [("v", gty(t))], STRING if variant == "string" else UNIT, Match(Var("v"), arms))
     p.fn("main", [], UNIT, Block(calls, Unit))
@@ -261,7 +268,19 @@ def matrices(tier, seed_):
                 seen.add(key)
                 out.append(m)
         k += 1
-    return out[:n]
+    out = out[:n]
+    # the literal grid, enumerated exhaustively by TLC (see MCMatchSem.tla)
+    g = run_tlc("MCMatchSem", "MatchSem_grid.cfg" if tier == "quick" else "MatchSem_grid_t.cfg", workers=4, xmx="6g", timeout=1200, name="matchsem-grid")
+    if g.rc != 0:
+        raise ToolError("MatchSem grid enumeration failed: " + (g.violated or g.error or g.stdout[-1500:]))
+    grid = g.json_prints("MATRIX")
+    if len(grid) < 200:
+        raise ToolError("MatchSem grid enumeration emitted too few matrices")
+    seen = {json.dumps(m["rows"]) + m["ty"] for m in out}
+    for m in grid:
+        if json.dumps(m["rows"]) + m["ty"] not in seen:
+            out.append(m)
+    return out
 
 
 _cache = {}
@@ -281,6 +300,9 @@ def programs(tier):
             prog, exp, st = matrix_program(m, i, "string")
             out.append({"prog": prog, "family": "c06:match-value", "ident": f"c06:match-value:{shape}:#{i}", "matrix": m,
                         "matchsem_out": "".join(l + "\n" for l in exp.splitlines()), "matchsem_status": st})
+        if i % 4 == 1:
+            prog, exp, st = matrix_program(m, i, "loop")
+            out.append({"prog": prog, "family": "c06:match-in-loop", "ident": f"c06:match-in-loop:{shape}:#{i}", "matrix": m, "matchsem_out": exp, "matchsem_status": st})
         if irrefutable(m["rows"][0]) and m["rows"][0]["k"] in ("t", "st"):
             m1 = dict(m, rows=m["rows"][:1], cases=[dict(c, res=dict(c["res"])) for c in m["cases"]])
             prog, exp, st = matrix_program(m1, i, "let")
